@@ -109,7 +109,16 @@ def build_unit(unit, workcopy):
         src = get_src(item["file"])
         kind = item["path"].split("/")[-1].strip().split(" ")[0]
         out.append("// ---- extracted from %s: %s ----\n" % (item["file"], item["path"]))
-        if kind == "fn":
+        if kind == "fn" and ("loop" in item or "closure" in item):
+            loc = vx.locate(src, item["path"])
+            ed = Edits(src.text)
+            lo, hi = vx.extract_block_as_fn(src, loc, item, ed)
+            log.extend(ed.log)
+            if item.get("obligation"):
+                fn_ob[item["as_fn"]] = item["obligation"]
+            under_contract.append("%s :: %s (%s #%d)" % (item["file"], item["path"], "loop" if "loop" in item else "closure", item.get("loop", item.get("closure"))))
+            out.append(ed.apply(lo, hi) + "\n\n")
+        elif kind == "fn":
             out.append(emit_fn(src, item) + "\n\n")
         elif kind in ("impl", "trait") and "members" in item:
             loc = vx.locate(src, item["path"])
@@ -121,6 +130,12 @@ def build_unit(unit, workcopy):
                 header = re.sub(pat, repl, header)
                 log.append("%s %s" % (why, item["path"]))
             out.append((item.get("attrs", "") + "\n" if item.get("attrs") else "") + header + "\n")
+            # associated type items of the impl are real code: emit them verbatim
+            b = loc["brace"]
+            for (s0, e0) in vx._top_level_items(src, b + 1, src.pairs[b]):
+                kw0, word0 = vx._item_keyword(src, s0, e0)
+                if word0 == "type":
+                    out.append("    " + src.text[toks[kw0].pos:toks[e0 - 1].end] + "\n")
             if item.get("ghost_members"):
                 out.append(item["ghost_members"].rstrip() + "\n")
             for m in item["members"]:
@@ -214,7 +229,9 @@ def run_unit(name, workcopy, outdir, timeout=600, rlimit=None):
     vr = js.get("verification-results", {})
     blocks = [b for b in parse_stderr(p.stderr) if b["level"] == "error"]
     blocks = [b for b in blocks if not b["msg"].startswith("aborting due to")]
-    if vr.get("encountered-vir-error") or "verified" not in vr:
+    compile_err = [b for b in blocks if re.match(r"^E\d+", (re.search(r"\[(E\d+)\]", b["text"].splitlines()[0]) or [None, ""])[1] or "")]
+    if vr.get("encountered-vir-error") or "verified" not in vr or compile_err or \
+            (vr.get("verified", 0) == 0 and vr.get("errors", 0) == 0 and blocks):
         res["reason"] = "verus front end rejected the extracted text: " + \
             "; ".join(b["msg"] for b in blocks[:3])
         res["stderr_tail"] = p.stderr[-3000:]
